@@ -24,7 +24,7 @@ from vlib import Result, enc_list, f2b, b2f, close
 PROP = 'C09'
 META = {
     'level_text': 'Lean 4 theorems, for every operation/query sequence of any length (induction), about executable models of (1) the HashTable of the diffusion models: a hit only ever returns a value stored under the same key at the same sensitivity with no clear in between, after enableCaching(False) nothing is returned or stored, the retrieve-else-compute-and-add idiom returns f at an argument with the same key, the int64 key is faithful inside its range (and the shipped int32 key, the shipped is-None switch and the shipped non-clearing setHashSensitivity are proved wrong on concrete witnesses); (2) the broadcasting helpers: equal lengths on success, singleton repeated, unequal lengths rejected, every array query is map-single over the broadcast pairs (also with the cache state threaded through), the caller\'s gExtra is not modified; (3) the cache state machine of the thermodynamics classes with pycalphad as a parameter: every solver call that receives cached composition sets receives them with the state variables of its own conditions, sampled points are only used under their own temperature tag and changing the density empties them, removeCache leaves the touched caches empty, and IF the solver is start-independent (hypothesis) every query result after any history equals the result on a new object and is an explicit function of the arguments. All three models are tied to /repo on every run (exact differential correspondence for (1),(2); trace refinement of instrumented real runs on the shipped Al-Zr and Ni-Cr-Al objects for (3)).',
-    'level_note': 'MONITORED ONLY (oracle, no proof): numerical purity of the pycalphad-backed values, i.e. that the real minimiser is start-independent to the solver tolerance — query sequences (orders, repetitions, temperature jumps, removeCache on/off, alone vs in arrays, cleared vs brand-new vs warmed objects) on the shipped Al-Zr and Ni-Cr-Al objects compared at rtol 1e-6; the vectorised GE axis of BinaryThermodynamics.getInterfacialComposition (one pycalphad workspace). Not modelled: computeSearchDir=True, local_phase_sampling_conditions (held at None; the sample cache is tagged by T only), impingementFactor, _interfacialCompositionFromCurvature, phase_records.models switching in _setupSubModels. Trusted: Python hash of an int tuple is injective on the keys met (hash(-1)==hash(-2) concerns negative components only); NumPy float->int cast semantics as observed on this platform (out of range -> minimum). Known finding kept in the code: curvatureFactor falls back on the previous output when the equilibrium at its arguments yields no two-phase result and a cached equilibrium exists.',
+    'level_note': 'MONITORED ONLY (oracle, no proof): numerical purity of the pycalphad-backed values, i.e. that the real minimiser is start-independent to the solver tolerance — query sequences (orders, repetitions, temperature jumps, removeCache on/off, alone vs in arrays, cleared vs brand-new vs warmed objects) on the shipped Al-Zr and Ni-Cr-Al objects compared at rtol 1e-6; the vectorised GE axis of BinaryThermodynamics.getInterfacialComposition (one pycalphad workspace). Not modelled: computeSearchDir=True, local_phase_sampling_conditions (held at None; the sample cache is tagged by T only), impingementFactor, _interfacialCompositionFromCurvature, phase_records.models switching in _setupSubModels. Trusted: Python hash of an int tuple is injective on the keys met (hash(-1)==hash(-2) concerns negative components only); NumPy float->int cast semantics as observed on this platform (out of range -> minimum). Findings kept in the code (known_findings.txt, each emitted under its own key only for its own class, identified from the instrumented trace): curvatureFactor / getGrowthAndInterfacialComposition answer with the previous output when the equilibrium at their arguments yields no two-phase result and a cached equilibrium exists (Lean: curvature_res gives the exact characterisation); the cached list can lose the precipitate in place and then poisons later queries without searchDir; and the cached-start local equilibrium of _getCompositionSetsEq (curvature factors, approximate/curvature driving force) can find other phases than the global equilibrium of a new object near the phase boundary — i.e. the StartIndependent hypothesis of the purity theorem is FALSE for the real pycalphad local solver there; the default tangent driving force, the diffusivities and the interfacial compositions showed no history dependence at rtol 1e-6.',
     'technique': 'Lean 4 proofs by induction over operation/query histories + exact model/implementation correspondence + trace refinement of instrumented real runs + differential oracle (warmed vs fresh objects)',
     'design_ref': 'DESIGN.md section 6, C09',
 }
@@ -36,7 +36,7 @@ MONITORED = [
 ASSUMPTIONS = [
     'compositions in [0,1], temperatures 300..3000 K, cache sensitivities 0..12 (0..15 thorough): |v*10^s| < 2^63, where the int64 key is exact; beyond that the cast collapses again (Lean: int64_residual_collision)',
     'conditional purity is proved under the hypothesis that the solver result does not depend on the supplied start; for the real pycalphad this is monitored at rtol 1e-6, not proved',
-    'local_phase_sampling_conditions=None and computeSearchDir=False throughout',
+    'local_phase_sampling_conditions=None and computeSearchDir=False throughout; one precipitate phase per object (the shipped Al-Zr and Ni-Cr-Al objects)',
     'values compared with rtol 1e-6 (absolute floor 1e-4 J/mol for driving forces, 1e-9 for mole fractions)',
 ]
 TRUSTED = [
@@ -174,7 +174,7 @@ def run_hash_real(ops):
                         viol.append(('hash-reuse-across-sensitivities', 'value stored at sensitivity %d returned at sensitivity %d (keys are formed at different precisions)' % (es, s), i))
                     elif ek != k:
                         big = max(abs(c) for c in ek + k)
-                        why = 'int32-overflow' if big >= 2 ** 31 and big < 2 ** 63 else 'int64-overflow' if big >= 2 ** 63 else 'different-key'
+                        why = 'component-beyond-int32' if 2 ** 31 <= big < 2 ** 63 else 'component-beyond-int64' if big >= 2 ** 63 else 'different-key'
                         viol.append(('hash-reuse-wrong-key:' + why, 'value stored for key %s returned for key %s at sensitivity %d' % (ek, k, s), i))
     return outs, hashes, len(ht.cachedData), bool(ht._cache), viol, argmod
 
@@ -984,10 +984,10 @@ def rng_switch(ctx):
 def corr_thermo(ctx, res, use_model=True):
     inst = Instr()
     try:
-        plan = [('B', 'tangent', ctx.n(20, 60)), ('M', 'tangent', ctx.n(24, 60))]
+        plan = [('B', 'tangent', ctx.n(30, 60)), ('M', 'tangent', ctx.n(30, 60))]
         extra = [('B', 'approximate', ctx.n(6, 30)), ('M', 'approximate', ctx.n(6, 30)), ('B', 'sampling', ctx.n(4, 20)),
                  ('M', 'curvature', ctx.n(4, 20)), ('M', 'sampling', ctx.n(0, 20)), ('B', 'curvature', ctx.n(0, 20))]
-        reps = ctx.n(1, 6)
+        reps = ctx.n(1, 8)
         sid = 0
         # scripted sequences: every run exercises the classes behind the recorded defects / finding
         x2, x1, T0 = M_X2[0], M_X1[1], M_T[0]
@@ -1011,6 +1011,14 @@ def corr_thermo(ctx, res, use_model=True):
         scripted_A = [dict(name='df', x=M_X2[3], T=M_T[2], rm=False, arr=False), dict(name='df', x=M_X2[1], T=M_T[4], rm=False, arr=False),
                       dict(name='df', x=x2, T=T0, rm=False, arr=False), dict(name='df', x=x2, T=T0, rm=False, arr=False)]
         run_sequence(ctx, res, 'M', 'approximate', scripted_A, inst, use_model, 's3'); sid += 1
+        # 'sampling' method: the sample cache is consulted by every query — temperature jumps without removeCache
+        scripted_SB = [dict(name='df', x=B_X[0], T=B_T[0], rm=False, arr=False), dict(name='df', x=B_X[0], T=B_T[3], rm=False, arr=False),
+                       dict(name='df', x=B_X[1], T=B_T[3], rm=False, arr=False), dict(name='df', x=[B_X[0], B_X[2]], T=[B_T[0], B_T[1]], rm=False, arr=True),
+                       dict(name='dens', d=1000), dict(name='df', x=B_X[0], T=B_T[1], rm=False, arr=False)]
+        scripted_SM = [dict(name='df', x=x2, T=T0, rm=False, arr=False), dict(name='df', x=x2, T=M_T[3], rm=False, arr=False),
+                       dict(name='df', x=M_X2[1], T=M_T[3], rm=False, arr=False)]
+        run_sequence(ctx, res, 'B', 'sampling', scripted_SB, inst, use_model, 's4'); sid += 1
+        run_sequence(ctx, res, 'M', 'sampling', scripted_SM, inst, use_model, 's5'); sid += 1
         run_sequence(ctx, res, 'M', 'tangent', scripted_switch, inst, use_model, 's0'); sid += 1
         run_sequence(ctx, res, 'M', 'tangent', scripted_M, inst, use_model, 's1'); sid += 1
         run_sequence(ctx, res, 'B', 'tangent', scripted_B, inst, use_model, 's2'); sid += 1
@@ -1041,8 +1049,8 @@ def corr(ctx, oracle_only=False):
                 'B: random scalar/1-d/2-d arguments incl. empty and mismatched lengths for the three helpers and the two hand-rolled broadcasts; '
                 'C/D: random query sequences on the shipped Al-Zr and Ni-Cr-Al objects — non-trivial = warmed caches in use; distinct = (part, index, shape)')
     res.monitored = list(MONITORED)
-    corr_hash(ctx, res, ctx.n(300, 6000), use_model=not oracle_only)
-    corr_broadcast(ctx, res, ctx.n(400, 8000), use_model=not oracle_only)
+    corr_hash(ctx, res, ctx.n(500, 6000), use_model=not oracle_only)
+    corr_broadcast(ctx, res, ctx.n(800, 8000), use_model=not oracle_only)
     corr_thermo(ctx, res, use_model=not oracle_only)
     return res
 
@@ -1069,8 +1077,8 @@ def replay(ctx, entry):
     ctx = vlib.Ctx(PROP, entry.get('tier', 'quick'), int(entry.get('seed', 0)))
     ctx.driver_ok = False
     res = Result()
-    corr_hash(ctx, Result(), ctx.n(300, 6000), use_model=False)
-    corr_broadcast(ctx, res, ctx.n(400, 8000), use_model=False)
+    corr_hash(ctx, Result(), ctx.n(500, 6000), use_model=False)
+    corr_broadcast(ctx, res, ctx.n(800, 8000), use_model=False)
     hit = [v for v in res.violations if v['key'] == key]
     for v in hit[:3]:
         print('  ', v['key'], v['what'])
